@@ -33,10 +33,14 @@ def load(p, rep):
         if ln.strip() == "@maporder":
             maporder(rep)
             continue
+        if ln.startswith("@syncshim"):
+            SHIM.append(ln.split()[1])
+            continue
         parts = ln.split("\t")
         tgt = parts[0].strip()
         src = parts[1].strip() if len(parts) > 1 else ""
         rep[os.path.join(REPO, tgt)] = os.path.join(ENG, src) if src else ""
+SHIM = []
 rep = {}
 load(os.path.join(ENG, "overlay", "base.list"), rep)
 for prop in sys.argv[1:]:
@@ -49,4 +53,23 @@ if extra:
             continue
         tgt, src = ln.split("\t")
         rep[os.path.join(REPO, tgt.strip())] = src.strip()  # absolute source path (mutated copy)
+# @syncshim <repo-rel file>: rewrite `import "sync"` of that file (as the build sees it, i.e. after any mutant
+# overlay) to the controlled-scheduler shim, and add the shim package as a virtual package of the repo module.
+if SHIM:
+    import re
+    outd = os.path.join(os.path.dirname(ENG), ".build", "syncshim")
+    for rel in SHIM:
+        tgt = os.path.join(REPO, rel)
+        srcp = rep.get(tgt, tgt)
+        s = open(srcp).read()
+        s2, n = re.subn(r'(?m)^(\s*)"sync"\s*$', r'\1sync "github.com/polynetwork/poly/common/verifhook/ssync"', s)
+        if n != 1:
+            sys.stderr.write("mkoverlay: %s does not import \"sync\" exactly once\n" % rel)
+            sys.exit(3)
+        dst = os.path.join(outd, rel)
+        os.makedirs(os.path.dirname(dst), exist_ok=True)
+        if not os.path.exists(dst) or open(dst).read() != s2:
+            open(dst, "w").write(s2)
+        rep[tgt] = dst
+    rep[os.path.join(REPO, "common/verifhook/ssync/ssync.go")] = os.path.join(ENG, "inpkg/common/verifhook/ssync/ssync.go")
 print(json.dumps({"Replace": rep}, indent=1))
